@@ -35,6 +35,8 @@ where
     receiver: Receiver<ActionOp<T>>,
     policy: BackpressurePolicy,
     metrics: Option<Arc<dyn Metrics + Send + Sync>>,
+    #[cfg(rs_store_verif)]
+    pub(crate) vid: usize,
 }
 
 #[cfg(dev)]
@@ -52,6 +54,16 @@ where
     T: Send + Sync + Clone + 'static,
 {
     pub fn send(&self, item: ActionOp<T>) -> Result<i64, SenderError<ActionOp<T>>> {
+        #[cfg(rs_store_verif)]
+        let vsid = crate::verif::store_id_opt(&self.metrics);
+        #[cfg(rs_store_verif)]
+        crate::verif::pt(
+            "send.begin",
+            vsid,
+            self.vid,
+            crate::verif::desc_op(&item),
+            0,
+        );
         let r = match self.policy {
             BackpressurePolicy::BlockOnFull => {
                 match self.sender.send(item).map_err(|e| SenderError::SendError(e.0)) {
@@ -61,6 +73,8 @@ where
             }
             BackpressurePolicy::DropOldest => {
                 if let Err(TrySendError::Full(item)) = self.sender.try_send(item) {
+                    #[cfg(rs_store_verif)]
+                    crate::verif::pt("send.full", vsid, self.vid, None, 0);
                     // Drop the oldest item and try sending again
                     #[cfg(dev)]
                     eprintln!("store: dropping the oldest item in channel");
@@ -71,6 +85,14 @@ where
                             metrics.action_dropped(Some(action));
                         }
                     }
+                    #[cfg(rs_store_verif)]
+                    crate::verif::pt(
+                        "send.pop",
+                        vsid,
+                        self.vid,
+                        _old.as_ref().ok().and_then(crate::verif::desc_op),
+                        0,
+                    );
                     match self.sender.try_send(item).map_err(SenderError::TrySendError) {
                         Ok(_) => Ok(self.receiver.len() as i64),
                         Err(e) => Err(e),
@@ -100,6 +122,8 @@ where
             }
         };
 
+        #[cfg(rs_store_verif)]
+        crate::verif::pt("send.end", vsid, self.vid, None, r.is_ok() as i64);
         if let Some(metrics) = &self.metrics {
             metrics.queue_size(self.receiver.len());
         }
@@ -115,6 +139,8 @@ where
     name: String,
     receiver: Receiver<ActionOp<T>>,
     metrics: Option<Arc<dyn Metrics + Send + Sync>>,
+    #[cfg(rs_store_verif)]
+    pub(crate) vid: usize,
 }
 
 #[cfg(dev)]
@@ -178,8 +204,20 @@ where
         metrics: Option<Arc<dyn Metrics + Send + Sync>>,
     ) -> (SenderChannel<MSG>, ReceiverChannel<MSG>) {
         let (sender, receiver) = channel::bounded(capacity);
+        #[cfg(rs_store_verif)]
+        let vid = crate::verif::next_id();
+        #[cfg(rs_store_verif)]
+        crate::verif::pt(
+            "chan.new",
+            crate::verif::store_id_opt(&metrics),
+            vid,
+            None,
+            capacity as i64,
+        );
         (
             SenderChannel {
+                #[cfg(rs_store_verif)]
+                vid,
                 _name: name.to_string(),
                 sender,
                 receiver: receiver.clone(),
@@ -187,6 +225,8 @@ where
                 metrics: metrics.clone(),
             },
             ReceiverChannel {
+                #[cfg(rs_store_verif)]
+                vid,
                 name: name.to_string(),
                 receiver,
                 metrics: metrics.clone(),
